@@ -17,6 +17,7 @@ VALS = {
  "s''": "(ㅁㅈㅎㄱ)", "s'1'": "(ㄴ ㅁㅈㅎㄴ)", "s'ab'": _s("ab"), "s'1.5'": _s("1.5"), "s'nope/x'": _s("nope/x"),
  "y''": _b(b""), "y'\\x01\\x02'": _b(b"\x01\x02"), "y'\\xff'": _b(b"\xff"),
  "l[]": "(ㅁㄹㅎㄱ)", "l[1]": "(ㄴ ㅁㄹㅎㄴ)", "l['1','2']": "(ㄴ ㅁㅈㅎㄴ ㄷ ㅁㅈㅎㄴ ㅁㄹㅎㄷ)", "l[1,'1']": "(ㄴ ㄴ ㅁㅈㅎㄴ ㅁㄹㅎㄷ)", "l[bomb]": "(ㄴ ㄱ ㄴㄴㅎㄷ ㅁㄹㅎㄴ)",
+ "l['1',y]": f"(ㄴ ㅁㅈㅎㄴ {_b(b' ')} ㅁㄹㅎㄷ)", "l[y,'1']": f"({_b(b'0')} ㄴ ㅁㅈㅎㄴ ㅁㄹㅎㄷ)", "l[y,y]": f"({_b(b'a')} {_b(b'b')} ㅁㄹㅎㄷ)",
  "d{}": "(ㅅㅈㅎㄱ)", "d{0:1}": "(ㄱ ㄴ ㅅㅈㅎㄷ)",
  "fn": "(ㄱㅇㄱ ㅎ)", "fnK": "(ㄴ ㅎ)",
  "ioR": "(ㄱ ㄱㅅㅎㄴ)", "ioI": "(ㄹㅎㄱ)", "ioP": "(ㄴ ㅁㅈㅎㄴ ㅈㄹㅎㄴ)", "ioB": "((ㄱ ㄱㅅㅎㄴ) ㄱㅅ ㄱㄹㅎㄷ)", "ioB3": "((ㄹㅎㄱ) (ㄱㅇㄱ ㄱㅅㅎㄴ ㅎ) ㄱㅅ ㄱㄹㅎㄹ)", "l[ioB]": "(((ㄱ ㄱㅅㅎㄴ) ㄱㅅ ㄱㄹㅎㄷ) ㅁㄹㅎㄴ)",
